@@ -273,6 +273,55 @@ def check_invariants(sigs, ratio, Q, res):
     return msgs
 
 
+def check_forms(res):
+    """the record may be any real array-like holding the same VALUES: integer dtypes, nested lists, Fortran order and
+    strided views give the spectrum and histories of the float64 C-ordered record bit for bit; the caller's arrays
+    (signal and frequency vector) are never modified"""
+    from pyyeti import srs
+
+    msgs = []
+    Xi = np.array([[0, 3], [3, -1], [-2, 4], [5, 0], [1, -6], [-4, 2], [2, 2], [0, -3], [6, 1], [-3, 0], [1, 5], [2, -2]], dtype=np.int64)
+    big = np.full((2 * Xi.shape[0] + 1, 2 * Xi.shape[1] + 1), 77.0)
+    big[1::2, 1::2] = Xi
+    fr = np.array([5.0, 12.0, 33.0])
+    for oneD, stype, ic, tm, getresp, rolloff in itertools.product((True, False), ("absacce", "pvelo", "reldisp"), ("zero", "steady"), ("primary", "residual"),
+                                                               (False, True), ("none", "lanczos")):
+        x = Xi[:, 0] if oneD else Xi
+        forms = {"int64": x, "int32": x.astype(np.int32), "int8": x.astype(np.int8), "list": x.tolist(),
+                 "strided": (big[1::2, 1] if oneD else big[1::2, 1::2]), "fortran": np.asfortranarray(x.astype(float)),
+                 "freq-list": None, "freq-int": None}
+
+        def call(sig, frq=fr):
+            with warnings.catch_warnings():
+                warnings.simplefilter("ignore")
+                out = srs.srs(sig, SR, frq, 20, stype=stype, ic=ic, time=tm, getresp=getresp, rolloff=rolloff, parallel="no", ppc=6)
+            return [np.asarray(out[0]), np.asarray(out[1]["hist"])] if getresp else [np.asarray(out)]
+
+        base = call(x.astype(float))
+        res.ev("forms/%s/%s/%s/%d%d/%s" % (stype, ic, tm, oneD, getresp, rolloff))
+        for fn, sig in forms.items():
+            frq = fr
+            if fn == "freq-list":
+                sig, frq = x.astype(float), fr.tolist()
+            elif fn == "freq-int":
+                sig, frq = x.astype(float), np.array([5, 12, 33])
+            snap = None if isinstance(sig, list) else sig.copy()
+            fsnap = None if isinstance(frq, list) else frq.copy()
+            try:
+                got = call(sig, frq)
+            except Exception as e:  # noqa
+                msgs.append("srs(stype=%s, ic=%s, time=%s, getresp=%s, rolloff=%s) raised %r for input form %s" % (stype, ic, tm, getresp, rolloff, e, fn))
+                continue
+            if not all(a.shape == b.shape and a.dtype == b.dtype and np.array_equal(a, b) for a, b in zip(got, base)):
+                msgs.append("srs(stype=%s, ic=%s, time=%s, getresp=%s, rolloff=%s, %s): input form %s gives a different result than the same values as C-ordered float64"
+                            % (stype, ic, tm, getresp, rolloff, "1-D" if oneD else "2-D", fn))
+            if (snap is not None and not (sig.dtype == snap.dtype and np.array_equal(sig, snap))) or (fsnap is not None and not np.array_equal(frq, fsnap)):
+                msgs.append("srs(stype=%s, ic=%s, time=%s, rolloff=%s) modified the caller's %s input" % (stype, ic, tm, rolloff, fn))
+        if len(msgs) > 6:
+            break
+    return msgs
+
+
 def check_rolloff(res):
     """resampling triggers iff sr/max(freq) < ppc; srs(sig, rolloff=X) == srs(rollfunc(sig), rolloff='none')"""
     from pyyeti import srs
@@ -472,6 +521,7 @@ def shards(tier, seed):
         for Q in Qs[:2]:
             out.append(dict(part="inv", ratio=ratio, Q=Q, tier=tier))
     out.append(dict(part="rolloff", tier=tier))
+    out.append(dict(part="forms", tier=tier))
     out.append(dict(part="frfvrs", tier=tier))
     r = seed % len(out)
     return out[r:] + out[:r]
@@ -522,6 +572,10 @@ def run_shard(sh):
             res.viol(dict(part="callhist", maxlen=sh["maxlen"], seq=seq, tier=tier), m, kind="callhist")
         res.ev("callhist", n=0)
         res.sample(dict(sh))
+    elif sh["part"] == "forms":
+        for m in check_forms(res):
+            res.viol(dict(part="forms", tier=tier), m, kind="forms-" + m.split("input form")[-1][:20])
+        res.sample(dict(part="forms"))
     elif sh["part"] == "rolloff":
         for m in check_rolloff(res):
             res.viol(dict(part="rolloff", tier=tier), m, kind="roll-" + m.split()[0])
@@ -547,4 +601,6 @@ def replay(case):
         return [m for seq, m in check_call_history(res, case["maxlen"])]
     if case["part"] == "rolloff":
         return check_rolloff(res)
+    if case["part"] == "forms":
+        return check_forms(res)
     return check_frf_vrs(res)
